@@ -50,6 +50,12 @@ def gen_case(rng, root, force=None):
     how = rng.choice(["copy", "rename"])
     keep_own = rng.choice(["none", "none", "second"])
     replay_link = dict(A["links"][0])      # signed content names A, presented under B's file name
+    foreign = None
+    if rng.random() < 0.2 and not force:
+        # ... or names a step of some OTHER layout whose name merely ends in B's (a path-like name, a dotted one): recorded
+        # for that step, not for B
+        foreign = rng.choice(["linux/", "release.", "x/y/", "../"]) + B["name"]
+        replay_link["name"] = foreign
     B["links"] = [replay_link]
     if keep_own == "second":
         B["pubkeys"] = [shared.keyid, second.keyid]
@@ -144,7 +150,7 @@ def gen_case(rng, root, force=None):
         extra_variant = "decoy_then_replay"
     if how == "rename" and extra_variant is None:
         A["links"] = []
-    desc = {"steps": n, "from": A["name"], "to": B["name"], "how": how, "own_evidence": keep_own,
+    desc = {"steps": n, "from": foreign or A["name"], "to": B["name"], "how": how, "own_evidence": keep_own,
             "rules_notice": notice, "same_artifacts": same_arts, "fmt": replay_link["fmt"],
             "shared_functionary": "gpg master, signed by %s" % ("a subkey" if gpg_signer is not shared else "the master")
             if gpg_signer else shared.kind,
